@@ -64,6 +64,7 @@ def run(R):
         "message types: every registered sdk.Msg implementation that can be instantiated generically (string/address fields := signer; ValidateBasic passes; an honest DIRECT tx passes the ante handler) -- 89 of 109 on the current tree, at least one per module except evidence; the rest of the matrix uses bank MsgSend, gov MsgRegisterIdentityRecords, tokens MsgEthereumTx",
         "'exactly that transaction': t_id identifies body + auth-info bytes; EIP-712 / raw Ethereum signatures cover the message (resp. the raw tx) and the sequence only -- theorem C02_exact_refuted_*, listed findings exact.*",
         "the sign document is abstracted to (mode, chain id, account number, sequence, identity of body+auth-info bytes); the oracle table is the real graph on the documents that occur",
+        "the effects clause (no tracked account outside the signer list is debited or changed; an inner payload accepted once has no effect on its signer again) concerns message execution, which the ante model does not contain: it is judged on the real observations only (both harness accounts are observed after every step), C02_checker_accepts_model_runs covers the other clauses",
         "replay theorem: fewer than 2^64 accepted transactions between the two submissions (uint64 sequence wrap)",
         "fee payer / signer addresses are spelled canonically (lower-case bech32): an upper-case spelling of an address already among the signers makes cosmos-sdk's Tx.GetSigners list it twice (SDK behaviour outside /repo; both slots must still verify under that account's key; the model's signer list is duplicate-free)",
         "genesis export / import is exercised as a continuation of 30 histories per run (sequence, key, account number survive; replays stay rejected); a failing export is recorded in the input distribution, not judged here (C12)",
